@@ -30,12 +30,22 @@ func validateConfig(cfg ElectionConfig) error {
 	}
 
 	// Check ValidationInterval (if set)
+	if cfg.ValidationInterval < 0 {
+		return NewValidationError("ValidationInterval", cfg.ValidationInterval,
+			"validation interval must be 0 (default) or >= HeartbeatInterval")
+	}
+
 	if cfg.ValidationInterval > 0 {
 		if cfg.ValidationInterval < cfg.HeartbeatInterval {
 			return NewValidationError("ValidationInterval", cfg.ValidationInterval,
 				fmt.Sprintf("validation interval (%v) should be >= HeartbeatInterval (%v)",
 					cfg.ValidationInterval, cfg.HeartbeatInterval))
 		}
+	}
+
+	if cfg.DisconnectGracePeriod < 0 {
+		return NewValidationError("DisconnectGracePeriod", cfg.DisconnectGracePeriod,
+			"disconnect grace period must be 0 (default) or >= 2x HeartbeatInterval")
 	}
 
 	if cfg.DisconnectGracePeriod > 0 {
